@@ -199,3 +199,67 @@ def run_seed_patches(ctx, seed_dir=None):
         results.append(res)
     ctx.report.extra["sub_agent_changes"] = results
     return results
+
+
+def run_refactor_patches(ctx, ref_dir=None):
+    """thorough tier, the other direction: every kept behaviour-preserving refactoring (refactors/*/r*.diff) that touches a file this property
+    analyses is applied to scratch copies and the rules are re-run; any new violation is a FALSE-ALARM of the rule set."""
+    import glob
+    import subprocess
+    ref_dir = ref_dir or os.path.join(facts.VERIF, "refactors")
+    if not os.path.isdir(ref_dir):
+        return []
+    mod = ctx.mod
+    units = list(mod.UNITS)
+    unit_set = set(units)
+    analysed = set(facts.relpath(f.file) for f in ctx.prog.functions.values())
+    base = set((i["rule"], i["site"]) for r in ctx.report.rules for i in r.instances if i["verdict"] == "violated")
+    results = []
+    for pf in sorted(glob.glob(os.path.join(ref_dir, "*", "r*.diff"))):
+        files = [l[6:].strip() for l in open(pf) if l.startswith("+++ b/")]
+        if not files or not any(f in analysed for f in files):
+            continue
+        name = "/".join(pf.split("/")[-2:])
+        res = {"name": name, "kind": "behaviour-preserving refactoring"}
+        scratch = tempfile.mkdtemp(prefix="llbx-ref-", dir=os.environ.get("VERIF_SCRATCH", "/tmp"))
+        try:
+            ok = True
+            for rel in files:
+                src = os.path.join(facts.REPO, rel)
+                if not os.path.isfile(src):
+                    ok = False
+                    break
+                dst = os.path.join(scratch, rel)
+                os.makedirs(os.path.dirname(dst), exist_ok=True)
+                shutil.copy(src, dst)
+            if ok:
+                p = subprocess.run(["patch", "-p1", "-s", "--no-backup-if-mismatch", "-i", pf], cwd=scratch, stdout=subprocess.PIPE, stderr=subprocess.STDOUT)
+                ok = p.returncode == 0
+            if not ok:
+                res.update(status="skipped", detail="patch does not apply to the current tree")
+                results.append(res)
+                continue
+            repl = {rel: open(os.path.join(scratch, rel)).read() for rel in files}
+        finally:
+            shutil.rmtree(scratch, ignore_errors=True)
+        try:
+            prog = overlay_program(units, repl, tag=ctx.prop + "-ref")
+            got = violations_of(ctx.prop, mod, prog)
+        except AnalysisBroken as e:
+            res.update(status="analysis-broken", detail=str(e)[:200])
+            results.append(res)
+            continue
+        except Exception:
+            import traceback
+            res.update(status="RULE-CRASH", detail=traceback.format_exc()[-300:])
+            results.append(res)
+            continue
+        new = got - base
+        if new:
+            res.update(status="FALSE-ALARM", detail="; ".join("%s %s" % x for x in sorted(new))[:300])
+        else:
+            res.update(status="silent", detail="")
+        results.append(res)
+    ctx.report.extra["refactorings"] = results
+    ctx.report.extra["refactorings_summary"] = {s_: sum(1 for r in results if r["status"] == s_) for s_ in sorted(set(r["status"] for r in results))}
+    return results
